@@ -164,8 +164,19 @@ func runC18(r *Run) {
 		c18NewTemporalLogClient(r, fn)
 	}
 	if fn := r.Fn("trillian/ctfe.ValidateLogConfig"); fn != nil {
-		v := "*new:trillian/ctfe.ValidatedLogConfig#*."
-		r.FailEdge(fn, "ValidateLogConfig", EdgeSpec{Name: "limit<start", Atom: ordAtomR(v+"NotAfterLimit", v+"NotAfterStart"), Bad: "<", Want: wantErr(true)})
+		// the instants compared are those the validated configuration carries (the pointee of its field, or of a
+		// pointer that is stored into the field once validation is over)
+		inst := func(f string) string {
+			alts := []string{"*new:trillian/ctfe.ValidatedLogConfig#*." + f}
+			for _, st := range r.StoresTo(fn, "&(new:trillian/ctfe.ValidatedLogConfig#*."+f+")") {
+				if t := "*" + r.D.D(st.Val); !isNilConst(st.Val) && !strings.Contains(t, " || ") {
+					alts = append(alts, t)
+				}
+			}
+			return strings.Join(alts, " || ")
+		}
+		r.FailEdgeWalk(fn, "ValidateLogConfig", EdgeSpec{Name: "limit<start", Atom: ordAtomR(inst("NotAfterLimit"), inst("NotAfterStart")), Bad: "<", Want: wantErr(true)},
+			func(s Sigma, from *ssa.BasicBlock) *Reach { return r.D.Walk(fn, s, from, nil) })
 		r.ErrorsGate(fn, "ValidateLogConfig:invalid-timestamp", "(*timestamppb.Timestamp).CheckValid", 2)
 	}
 }
@@ -348,6 +359,9 @@ func c18NewTemporalLogClient(r *Run, fn *ssa.Function) {
 	// that both stem from Shard[i] is the obligation shardInterval:callers-pass-one-shard's-bounds
 	ovr := r.allocOf(fn, "client.shardInterval(p0.Shard[0]*)#0")
 	cur := r.allocOf(fn, "client.shardInterval(p0.Shard[it@*]*)#0")
+	if ovr == "" && cur != "" && c18FoldedShardLoop(r, fn, key) {
+		return
+	}
 	if !r.Check(key+":overall/next", ovr != "" && cur != "" && ovr != cur, r.FnPos(fn), "overall span starts as shardInterval(Shard[0]) in "+ovr+"; each later shard is shardInterval(Shard[i]) in "+cur) {
 		return
 	}
@@ -498,7 +512,9 @@ func c18TemporallyCompatible(r *Run) {
 		ti := "p0.Operators[*].Logs[*].TemporalInterval"
 		entry := r.CheckWindow(Window{Name: "TemporallyCompatible", Fn: fn, T: "p1.NotAfter", S: ti + ".StartInclusive", L: ti + ".EndExclusive",
 			PresS: "nil?" + ti, PresL: "nil?" + ti, Outcome: loopOutcome(logAppends)})
-		r.Floor("TemporallyCompatible:keep-sites", len(logAppends()), 2)
+		// (one site suffices against a vacuous table: the valuations above demand a keep site both for a log without
+		// interval and for an instant inside the interval, whether these share one statement or not)
+		r.Floor("TemporallyCompatible:keep-sites", len(logAppends()), 1)
 		r.Rule("C18.R4")
 		if entry != nil {
 			// the log kept is the log whose interval was tested
